@@ -898,6 +898,7 @@ func runC19(e *Env) {
 		c.legacy(p, "small-domain", n, content, dir, sc)
 		c.muxObserve(p, "small-domain", n, content, dir, false)
 		c.muxObserve(p, "small-domain", n, nil, dir, true)
+		c.verifyRead(p, "small-domain", n, content, dir)
 		// content class x destination class: both lists are walked with co-prime strides over the
 		// pair index, so every (size, cs) neighbourhood meets every combination
 		// (the starting point depends on the seed, so another seed gives a pair another combination)
@@ -913,6 +914,7 @@ func runC19(e *Env) {
 		}
 	})
 	vk.Logf("c19 small domain done: %d pairs after %.1fs", smallDone, time.Since(t0).Seconds())
+	verifyLarge := c.verifyReadLarge(base)
 
 	// ---- 2. boundaries ----
 	bnd := c19Boundaries()
@@ -1018,6 +1020,8 @@ func runC19(e *Env) {
 
 	R.SetExtra("deliveries_over_a_pre_existing_destination", c.existing)
 	R.Require(int(smallDone) == len(small), "small domain not enumerated completely")
+	R.Require(c.obs["verification-read/small-domain"] >= len(small)-64, fmt.Sprintf("the verification read (hashFileChunk) returned a value for every chunk of only %d pairs of the small domain", c.obs["verification-read/small-domain"]))
+	R.Require(c.obs["verification-read/large-chunk-sizes"] >= verifyLarge, fmt.Sprintf("the verification read (hashFileChunk) returned a value for every chunk of only %d of %d pairs with large chunk sizes", c.obs["verification-read/large-chunk-sizes"], verifyLarge))
 	R.Require(c.obs["mux-recv_delivery_existing_destination"] >= len(small)-64, fmt.Sprintf("only %d deliveries over a pre-existing destination reached a verdict", c.obs["mux-recv_delivery_existing_destination"]))
 	R.Require(c.obs["legacy_roundtrip_existing_destination"] >= len(small)-64, fmt.Sprintf("only %d legacy round trips over a pre-existing destination reached a verdict", c.obs["legacy_roundtrip_existing_destination"]))
 	for _, cc := range c19ContentClasses {
